@@ -217,6 +217,21 @@ def traced_facts(prog: Program, interp: Interp, cr: ClientRoles) -> Tuple[Dict[s
                              f'an attempt that raises (any BaseException, e.g. cancellation) must report begin once and then error '
                              f'exactly once and no end; found begin={st[0]} calls={st[1]} end={st[2]} error={st[3]}; '
                              f'path: {cfg.describe_path(path)}'))
+    # the completion report lies outside the region whose failures are reported as errors: a tracer whose own on_request_end fails must
+    # not make the attempt (which returned) be reported as an error to every tracer as well
+    err_heads = [v[1] for v in loops.values() if v[0] == 'on_error']
+    protected = False
+    for name_, head_, call_ in loops.values():
+        if name_ != 'on_request_end':
+            continue
+        for fr in head_.frames:
+            if fr[0] == 'try' and any(eh.handler is hn or eh.handler is not None and eh.handler.handler is hn for hn in fr[2] for eh in err_heads):
+                protected = True
+                problems.append(('TRACE-TYPESTATE', 'completion reported inside the region guarded by the error report', head_.line,
+                                 f'the on_request_end loop at line {head_.line} is inside the try block whose handler reports on_error: if a '
+                                 f'tracer\'s own on_request_end raises, the attempt — which had returned — is additionally reported as an '
+                                 f'error to every tracer (two completion events for one attempt)'))
+    facts['end_inside_guarded_region'] = protected
     if not at_raise:
         problems.append(('TRACE-TYPESTATE', 'exceptions of the traced method do not propagate', f.node.lineno,
                          'an exception raised by the transport no longer reaches the caller'))
@@ -312,6 +327,36 @@ def traced_facts(prog: Program, interp: Interp, cr: ClientRoles) -> Tuple[Dict[s
                 problems.append(('TRACE-RERAISE', 'traced wrapper does not return the attempt\'s response', n.line,
                                  f'`{norm(n.ast)}` must return the value of the traced call unchanged'))
     return facts, problems
+
+
+def relate_inside_send_problems(prog: Program) -> Tuple[int, List[Tuple[FuncInfo, int, str, str]]]:
+    """Every place of the client module that sends a request hands its class's `_relate` to `_send` as the validator, and `_relate`
+    is called from nowhere else: the id check is then part of the traced (and retried) attempt, so its failure is reported to the
+    tracers as the attempt's error and can be retried.  (#send sites, problems)"""
+    sites = 0
+    problems: List[Tuple[FuncInfo, int, str, str]] = []
+    for f in prog.iter_funcs():
+        if f.module.name != 'pjrpc.client.client' or f.cls is None:
+            continue
+        for x in walk_own(f.node):
+            if not isinstance(x, ast.Call) or not isinstance(x.func, ast.Attribute):
+                continue
+            if x.func.attr == '_send' and dotted(x.func.value) in ('self', 'self._client'):
+                sites += 1
+                v = None
+                for k in x.keywords:
+                    if k.arg == 'validator':
+                        v = k.value
+                if v is None or dotted(v) != 'self._relate':
+                    problems.append((f, x.lineno, 'request sent without the class\'s _relate as validator',
+                                     f'`{norm(x)[:90]}` passes `{norm(v) if v is not None else "<nothing>"}` as the validator: the response is not '
+                                     f'related to its request inside the send attempt'))
+            elif x.func.attr == '_relate' and dotted(x.func.value) == 'self':
+                problems.append((f, x.lineno, '_relate called outside the send attempt',
+                                 f'`{norm(x)[:80]}` relates the response after the traced / retried _send has returned: an identity mismatch '
+                                 f'then reaches the caller as an exception although the tracers were told the attempt ended normally '
+                                 f'(on_request_end), and a listed IdentityError is not retried'))
+    return sites, problems
 
 
 def decor_order_facts(prog: Program, cr: ClientRoles) -> Tuple[Dict[str, Any], List[Problem]]:
@@ -719,6 +764,13 @@ def backoff_facts(prog: Program) -> Tuple[Dict[str, Any], List[Problem]]:
                         gens.append(m_)
         gens = gens or [call]
         g = gens[0]
+        from ..effects import memoised_one_shot
+        for fn_ in {call.qualname: call, g.qualname: g}.values():
+            shared = memoised_one_shot(prog, fn_)
+            if shared:
+                problems.append(('BACKOFF-BOUND', f'{ci.name}: delay iterator shared between requests', fn_.node.lineno,
+                                 shared + ': the delays of one request are consumed by another, so pauses are not the successive delays of the '
+                                 'backoff and a request can run out of attempts it never used'))
         cfg = CFG(g, prog)
         yields = [n for n in cfg.stmt_nodes() if any(isinstance(x, (ast.Yield, ast.YieldFrom)) for frag in node_exprs(n) for x in walk_no_defs(frag))]
         heads = [n for n in cfg.nodes if n.kind == 'next']
